@@ -54,6 +54,7 @@ PROPS = {
     'C09': {'level': 'model_checking', 'mc': [MC_CONC_STRICT], 'families': [fam('conc', 'c09', 48, 800)], 'trace': COLUMN_TRACE, 'assumptions': []},
     'C11': seq_prop('c11', 100, 2000, mc=[MC_CONC_STRICT, MC_CONC_ASBUILT], more=[fam('conc', 'c11', 32, 500)]),
     'C12': seq_prop('c12', 150, 2500, mc=[MC_KEYS_STRICT, MC_KEYS_ASBUILT], more=[fam('conc', 'c12', 24, 400)]),
+    'C14': {'level': 'model_checking', 'mc': [], 'families': [fam('fault', 'c14', 12, 12, shards=6), fam('fault', 'c14t', 0, 6, shards=6)], 'trace': COLUMN_TRACE, 'assumptions': []},
     'C15': seq_prop('c15', 100, 2000, mc=[MC_CONC_STRICT], more=[fam('conc', 'c15', 32, 500)]),
     'C16': seq_prop('c16', 150, 2500, mc=[MC_STORE_STRICT]),
     'C19': seq_prop('c19', 150, 2500, mc=[MC_STORE_STRICT]),
